@@ -46,6 +46,14 @@ func isSyncIntrinsic(fn *ssa.Function) bool {
 		fn.Name() == "verifYield"
 }
 
+func isReleaseIntrinsic(fn *ssa.Function) bool {
+	switch fn.String() {
+	case "(*sync.Mutex).Unlock", "(*sync.RWMutex).Unlock", "(*sync.RWMutex).RUnlock":
+		return true
+	}
+	return false
+}
+
 type intrinsicFn func(e *Exec, g *Goroutine, fn *ssa.Function, args []Value) (Value, bool)
 
 var intrinsicTable map[string]intrinsicFn
